@@ -32,6 +32,16 @@ Added probes (helpers in harness/s7_c18.py):
    `with` statements; after EVERY operation the class (parameters of the generated __init__, lookup, fields, size, alignment,
    names and offsets of __fields__, __updating__, the exception commit let escape) is compared with the model's state, and
    whenever the history stands outside every block the class is compared with the one-shot declaration of the fields added so far.
+ * derived types taken while the structure is still growing (harness/v6_c18.py): T is registered by name on one cstruct instance
+   and built step by step (add_field, start_update batches, extend+commit); before the first field, between the steps and inside
+   open batches array types of T (`T[n]`, `cs.T[n]`, `cs.resolve("T")[n]`, `cs._make_array`, two-dimensional; the same length again
+   and again) and structures embedding T (`T x[n]`, `T x[n][m]`, `T *p`, `T *p[n]`, `T m`, `uint8 c; T x[c]`; through cs.load or from
+   Field objects; own compiled / align flags) are requested and used; then T is extended.  Whatever is requested while the history
+   stands outside every batch - in particular ALL earlier requests repeated at check points and at the end, plus a new embedding
+   definition - must equal the same request on a fresh cstruct instance on which T is declared in one piece with the fields it has
+   at that moment: array name/size/alignment/element type/parse/dumps/default and size == n * len(T); for embedding structures the
+   full comparison above (layout, reader, parses, dumps, instance behaviour).  Derived types made BEFORE an extension and still
+   held are only used and counted: the unmodified library leaves them with the size / offsets of the intermediate state.
 """
 from __future__ import annotations
 
@@ -44,6 +54,7 @@ from .. import defs, impl, refimpl
 from .. import s7_c18 as s7
 from .. import t5_c18 as t5
 from .. import v4_c18upd as v4u
+from .. import v6_c18 as v6
 from ..common import A, Case, Result, mkrng, parse_sexp, run_driver, sx
 from ..structprops import rand_bytes
 
@@ -342,8 +353,14 @@ def run(env) -> Result:
                 "itself (compiled flag, interpreted loop or generated source/plan modulo token numbering), parse (value, sizes, consumed) at "
                 "stream positions 0/1/3, inside a packed outer structure at offset 1/3 and as T[2] element, dumps, writes at position 1/3, "
                 "default instance, ==/hash/bool/repr/positional construction. Plus definitions through the parser (pre-registered named "
-                "struct, self pointers) against the same field list declared in one piece. distinct = (field list, config, split, mode); "
-                "non-trivial = >= 2 batches")
+                "struct, self pointers) against the same field list declared in one piece. Plus histories on one cstruct instance in "
+                "which array types of T (T[n], cs.T[n], resolve, _make_array, 2-dimensional; the same length repeatedly) and structures "
+                "embedding T (T x[n], T x[n][m], T *p, T *p[n], T m, T x[c]; cs.load or Field objects; own compiled/align flags) are "
+                "requested before the first field, between the steps and inside open batches, T is extended, and everything is requested "
+                "again: each request made outside a batch equals the same request on a fresh instance with T declared in one piece "
+                "(array: name, size == n*len(T), alignment, element type, parse at 0/1, dumps, default; embedding structure: the full "
+                "comparison above); types held from before an extension are not judged. distinct = (field list, config, split, mode); "
+                "non-trivial = >= 2 batches (derived-type histories: some request repeated after an extension)")
     dc = impl.dc()
     from dissect.cstruct import compiler
     from dissect.cstruct.types.structure import Field
@@ -448,6 +465,9 @@ def run(env) -> Result:
     # the update protocol as a state machine, operation by operation against the Lean model (own PRNG stream)
     v4u.run(env, res, viol, mkrng(env["seed"], "c18-upd"), sys.modules[__name__])
 
+    # derived types (arrays of T, structures embedding T) taken while T is still growing, and again afterwards (own PRNG stream)
+    v6.run(env, res, viol, mkrng(env["seed"], "c18-derived"), sys.modules[__name__])
+
     # definitions through the parser: a named top-level struct is pre-registered empty (compiled if requested), then extended and
     # committed; the same field list declared in one piece must give the same class
     def parser_probe(text, names, endian, align, compiled, ptr, kind):
@@ -533,7 +553,9 @@ def replay(body) -> int:
         found.append(what)
 
     dc = impl.dc()
-    if "history" in case and "data_seed" in case:
+    if "derive_steps" in case:
+        v6.replay_case(sys.modules[__name__], case, viol)
+    elif "history" in case and "data_seed" in case:
         v4u.replay_case(sys.modules[__name__], case, viol)
     elif "history" in case:
         interrupted_case(dc, case, viol)
